@@ -8,10 +8,12 @@ T={
  "C14":("exploration","runtime monitoring: per-tx NFT state probe (all classes, tokens, owners, supplies, owner listings via the module's queries) against a reference ownership map, hostile actors"),
  "C15":("exploration","runtime monitoring: per-tx MT state probe incl. raw balance-store walk against an arbitrary-precision reference ledger, boundary/overflow amounts"),
  "C20":("exploration","runtime monitoring of the two generated code families in one process: exhaustive registry/descriptor walk (gogoproto registry vs protobuf-go registry, every .proto under proto/irismod, every Msg signer via the application's signing context) + descriptor-driven cross-family byte round trips; thorough tier under the checkptr sanitizer"),
+ "C17":("exploration","runtime monitoring: per-tx/per-end-block feed probe (value list, state index, request context) against a reference that appends one exact-rational aggregate per completed batch, hostile providers and strangers"),
+ "C18":("exploration","runtime monitoring: per-block due-height model over the raw result keys (write-once), pending queue and oracle-request records; value format/PRNG re-derivation from observed chain data; pure PRNG probe"),
  "C19":("exploration","runtime monitoring: response-id uniqueness monitor, query read-back of every id (per block, periodic, final) and block-to-block raw store diff (append-only)"),
 }
 NA={}
-FIXES=["82dca39 (C02 double-hop swap settlement)"]
+FIXES=["82dca39 (C02 double-hop swap settlement)","4b78834 (C17 oracle Max of all-negative responses)"]
 checks=[]
 for p in props:
     i=p['id']
